@@ -122,6 +122,7 @@ def drive_worker(args):
     for (tag, src, doc, sd, so, co, tail, style) in jobs:
         case, dbg = docdrv.make_case(sub, tag, doc, sd, so, co, tail, style)
         case['src'] = src
+        case['size'] = len(json.dumps([case[f] for f in CASE_FIELDS], separators=(',', ':')))
         case['feat'] = docdrv.features(doc)
         case['dbg'] = {'ctl0': dbg['ctl0'], 'sna_opts': dbg['sna_opts'], 'ctl_opts': dbg['ctl_opts'], 'tail': tail,
                        'start': dbg['start'], 'mem': dbg['mem'], 'end': doc['end'],
@@ -166,10 +167,15 @@ def key_of(clause, case):
     return 'rt:' + clause
 
 
-def judge(rep, cases, wd, name='CtlDocCases', chunk=450):
+def judge(rep, cases, wd, name='CtlDocCases', budget=24000000):
     fails, drift = [], []
-    for lo in range(0, len(cases), chunk):
-        part = cases[lo:lo + chunk]
+    lo = 0
+    while lo < len(cases):
+        hi, size = lo, 0
+        while hi < len(cases) and (hi == lo or size + cases[hi]['size'] < budget):
+            size += cases[hi]['size']
+            hi += 1
+        part = cases[lo:hi]
         slim = [{k: c[k] for k in CASE_FIELDS} for c in part]
         r, fs = tlc.judge('doc', 'CtlDocCases', 'CtlDocCases.cfg', slim, casefile=os.path.join(wd, 'cases%d.json' % lo))
         rep.add_tlc(r, '%s[%d:%d]' % (name, lo, lo + len(part)), traces=len(part))
@@ -179,6 +185,7 @@ def judge(rep, cases, wd, name='CtlDocCases', chunk=450):
                 m = re.match(r'(\d+), "(.*)"', rest or '')
                 if m:
                     drift.append((lo + int(m.group(1)) - 1, m.group(2)))
+        lo = hi
     return fails, drift
 
 
@@ -209,9 +216,9 @@ def run(tier):
     rep.add_tlc(r, 'CtlDoc_mc')
     rep.model_violation(r, 'CtlDoc_mc')
     # (B) documents: TLC behaviours + random builder
-    nsim, nrand, nlegs = (260, 220, 2) if tier == 'quick' else (3000, 5000, 3)
+    nsim, nrand, nlegs = (220, 160, 2) if tier == 'quick' else (3000, 5000, 3)
     states, gen = simulate_docs(wd, sd, nsim, procs=12 if tier == 'quick' else 16)
-    log('C03: %d documents from CtlDoc behaviours (%d states generated)' % (len(states), gen))
+    log('C03: %d documents from CtlDoc behaviours (%.0fs)' % (len(states), rep.timer.s()))
     rep.transitions += gen
     rnd = random.Random(sd * 7919 + 17)
     jobs = []
@@ -229,15 +236,17 @@ def run(tier):
     for n, st in enumerate(sweep):
         doc = docdrv.doc_from_state(st, random.Random(n), 32768, plain=True)
         for j, co in enumerate(([], ['-k'])):
-            jobs.append(('s%05d.%d' % (n, j), 'sweep', doc, n, [], co, bool(n % 2), 'dec'))
+            if j == 0 or tier != 'quick' or n % 4 == sd % 4:
+                jobs.append(('s%05d.%d' % (n, j), 'sweep', doc, n, [], co, bool(n % 2), 'dec'))
     for n in range(nrand):
         dsd = sd * 1000003 + n
         doc = docdrv.random_doc(dsd)
         drnd = random.Random(dsd)
         for j, (so, co, tail, style) in enumerate(legs_for(doc, drnd, nlegs)):
             jobs.append(('r%05d.%d' % (n, j), 'builder', doc, dsd * 7 + j, so, co, tail, style))
+    log('C03: %d jobs (%.0fs)' % (len(jobs), rep.timer.s()))
     cases = drive(wd, jobs)
-    log('C03: %d round trips driven' % len(cases))
+    log('C03: %d round trips driven (%.0fs)' % (len(cases), rep.timer.s()))
     feats = collections.Counter()
     for c in cases:
         rep.count((c['src'], c['tag'].split('.')[0], tuple(c['dbg']['sna_opts']), tuple(c['dbg']['ctl_opts']), c['dbg']['tail']))
@@ -254,6 +263,9 @@ def run(tier):
         raise MachineryError('C03: %d of %d cases drift on the ctl0 -> A leg (%s): the generator is off'
                              % (len(drift), len(cases), dict(dk.most_common(5))))
     rep.extra['drift_kinds'] = dict(dk)
+    rep.extra['drift_samples'] = [{'tag': cases[i]['tag'], 'what': t, 'ctl0': cases[i]['dbg']['ctl0'][:40],
+                                   'opts': cases[i]['dbg']['sna_opts'] + cases[i]['dbg']['ctl_opts'],
+                                   'A': cases[i]['dbg']['A'][:1500].split('\n')} for i, t in drift[:3]]
     rep.extra['features'] = dict(sorted(feats.items()))
     rep.extra['fail_clauses'] = dict(collections.Counter(re.sub(r' #.*', '', cl) for _, cl in fails).most_common(20))
     ok = [c for i, c in enumerate(cases) if i not in {f[0] for f in fails}]
